@@ -231,38 +231,58 @@ Section Honest.
   Hypothesis compress_len : forall P, length (compress P) = 33%nat.
   Hypothesis decompress_compress : forall d, decompress (compress (pub d)) = Some (pub d).
 
-  Variable d : N.                         (* the node's private scalar *)
+  (* The node's key signer was given the scalar d.  It answers three questions by three pieces of code
+     (model/Identity.v): the scalar it hands to libp2p.New, the address it reports, and -- through its
+     signatures -- the address verifiers recover. *)
+  Variable ks_priv : N -> N.
+  Variable ks_addr : N -> bytes.
+  Variable recover_addr : N -> bytes.
+  Variable d : N.
   Hypothesis d_range : d < 2 ^ 256.
+  (* the three binding premises of C18_coherent: the signer is bound to the scalar *)
+  Hypothesis bind_priv : ks_priv d = d.
+  Hypothesis bind_addr : ks_addr d = ID.eth_addr keccak (pub d).
+  Hypothesis bind_recover : recover_addr d = ID.eth_addr keccak (pub d).
 
-  (* the node's transport identity and the address it signs with (model/Identity.v) *)
-  Definition honest_pid : bytes := ID.peerid (compress (pub d)).
+  (* the address of the key, used by the numbering examples *)
   Definition honest_addr : bytes := ID.pubkey_addr keccak pub d.
 
-  Lemma honest_host_id : ID.host_id pub compress (ID.pad32 (ID.min_be d)) = Some honest_pid.
-  Proof. unfold ID.host_id. rewrite IDP.unmarshal_padded by exact d_range. reflexivity. Qed.
+  (* A peer of that node.  Its address-of-peer-id answer is GetEthAddressFromPeerID on the transport identity
+     libp2p.New builds for the node as it is written now ([ID.node_peer_addr_now]: key from the signer, padded,
+     unmarshalled; consults [ID.wiring_ok]); and its signature verifier recovers, from the node's handshake
+     request, the address the node's signatures recover to -- which is what [recover_addr d] is. *)
+  Variable o : HS.oracles.
+  Hypothesis o_pid :
+    HS.addr_of_pid o = pres_of (ID.node_peer_addr_now keccak pub compress decompress ks_priv d).
+  Variables role token sig : bytes.
+  Hypothesis o_verify : HS.verify o sig (role ++ token) = HS.VOk true (recover_addr d).
 
-  Lemma honest_peer_addr : ID.addr_of_peerid keccak decompress honest_pid = Some honest_addr.
+  (* C18_coherent: the address peers derive from the transport identity is the recovered address *)
+  Lemma honest_binding : HS.addr_of_pid o = HS.POk (recover_addr d).
   Proof.
-    pose proof (IDP.coherent keccak pub compress decompress compress_len decompress_compress d d_range) as H.
-    unfold ID.node_peer_addr in H. rewrite honest_host_id in H. exact H.
+    destruct (IDP.coherent_sources keccak pub compress decompress ks_priv ks_addr recover_addr
+                compress_len decompress_compress d d_range bind_priv bind_addr bind_recover) as (_ & H & _).
+    rewrite o_pid, H. reflexivity.
   Qed.
 
-  (* a peer whose address-of-peer-id oracle is GetEthAddressFromPeerID on the honest node's transport
-     identity, and whose signature verifier recovered the honest node's signing address *)
-  Variable o : HS.oracles.
-  Hypothesis o_pid : HS.addr_of_pid o = pres_of (ID.addr_of_peerid keccak decompress honest_pid).
-  Variables role token sig : bytes.
-  Hypothesis o_verify : HS.verify o sig (role ++ token) = HS.VOk true honest_addr.
-
-  Lemma honest_binding : HS.addr_of_pid o = HS.POk honest_addr.
-  Proof. rewrite o_pid, honest_peer_addr. reflexivity. Qed.
+  (* ... and it is the address the node itself reports, so the echo of a peer that enrolled it is accepted by
+     the node's own verifyResp (its configuration carries GetAddress() as own address) *)
+  Lemma honest_echo_accepted cfg :
+    HS.own_addr cfg = ks_addr d ->
+    HS.echo_ok cfg (recover_addr d) (HS.role_string (HS.own_type cfg)) = true.
+  Proof.
+    intros Hc.
+    destruct (IDP.coherent_sources keccak pub compress decompress ks_priv ks_addr recover_addr
+                compress_len decompress_compress d d_range bind_priv bind_addr bind_recover) as (_ & _ & H).
+    unfold HS.echo_ok. rewrite Hc, H, !bytes_eqb_refl. reflexivity.
+  Qed.
 
   (* verifyReq: the address comparison succeeds; only the stake question remains *)
   Theorem honest_verify_req :
     HS.verify_req o role token sig =
     if bytes_eqb role HS.provider_string
-    then (if HS.registered o honest_addr then (inl honest_addr, [honest_addr]) else (inr HS.RStake, [honest_addr]))
-    else (inl honest_addr, []).
+    then (if HS.registered o (recover_addr d) then (inl (recover_addr d), [(recover_addr d)]) else (inr HS.RStake, [(recover_addr d)]))
+    else (inl (recover_addr d), []).
   Proof.
     unfold HS.verify_req, HS.signed_data. rewrite o_verify, honest_binding, bytes_eqb_refl. reflexivity.
   Qed.
@@ -271,9 +291,9 @@ Section Honest.
      predicate holds, and the whole predicate holds unless the node claims to be a provider the
      registry does not know *)
   Theorem honest_node_passes_binding :
-    HS.addr_of_pid o = HS.POk honest_addr /\
-    ((role = HS.provider_string -> HS.registered o honest_addr = true) ->
-     HS.proves o role token sig honest_addr).
+    HS.addr_of_pid o = HS.POk (recover_addr d) /\
+    ((role = HS.provider_string -> HS.registered o (recover_addr d) = true) ->
+     HS.proves o role token sig (recover_addr d)).
   Proof.
     split; [exact honest_binding|]. intros Hs. split; [exact o_verify|]. split; [exact honest_binding|exact Hs].
   Qed.
@@ -285,11 +305,11 @@ Section Honest.
     HS.as_req f1 = Some (role, token, sig) ->
     forall cl, HS.res (HS.handle cfg o wfail (f1 :: rest)) = HS.Refuse cl ->
       cl <> HS.RSig /\ cl <> HS.RAddr /\ cl <> HS.RPid /\
-      (cl = HS.RStake -> role = HS.provider_string /\ HS.registered o honest_addr = false).
+      (cl = HS.RStake -> role = HS.provider_string /\ HS.registered o (recover_addr d) = false).
   Proof.
     intros Hf cl. unfold HS.handle. rewrite Hf, honest_verify_req.
     destruct (bytes_eqb role HS.provider_string) eqn:P.
-    - apply bytes_eqb_eq in P. destruct (HS.registered o honest_addr) eqn:R.
+    - apply bytes_eqb_eq in P. destruct (HS.registered o (recover_addr d)) eqn:R.
       + destruct (wfail 0%nat); [intros H; injection H as <-; repeat split; congruence|].
         destruct (wfail 1%nat); [intros H; injection H as <-; repeat split; congruence|].
         destruct rest as [|f2 r2]; [intros H; injection H as <-; repeat split; congruence|].
@@ -320,10 +340,10 @@ Section Honest.
      its signing address *)
   Theorem honest_enrolled cfg wfail f1 f2 rest ea er :
     HS.as_req f1 = Some (role, token, sig) ->
-    (role = HS.provider_string -> HS.registered o honest_addr = true) ->
+    (role = HS.provider_string -> HS.registered o (recover_addr d) = true) ->
     wfail 0%nat = false -> wfail 1%nat = false ->
     HS.as_resp f2 = Some (ea, er) -> HS.echo_is_own cfg ea er ->
-    HS.res (HS.handle cfg o wfail (f1 :: f2 :: rest)) = HS.Enrol honest_addr (HS.role_of_string role).
+    HS.res (HS.handle cfg o wfail (f1 :: f2 :: rest)) = HS.Enrol (recover_addr d) (HS.role_of_string role).
   Proof.
     intros Hf Hs W0 W1 Hr He. apply HSP.handle_enrol_iff.
     exists role, token, sig, ea, er, f1, f2, rest.
@@ -367,23 +387,29 @@ Section HonestExample.
   Let compress : ID.point -> bytes := fun P => 2 :: be 32 (fst P).
   Let decompress : bytes -> option ID.point := fun c => Some (unbe (tl c) mod 2 ^ 256, 0).
   Let dd : N := 258.
+  (* a key signer bound to its scalar *)
+  Let ks_priv : N -> N := fun d => d.
+  Let ks_addr : N -> bytes := fun d => ID.eth_addr kk (pub d).
+  Let recover_addr : N -> bytes := fun d => ID.eth_addr kk (pub d).
   Let oo : HS.oracles :=
-    {| HS.verify := fun _ _ => HS.VOk true (honest_addr kk pub dd);
-       HS.addr_of_pid := pres_of (ID.addr_of_peerid kk decompress (honest_pid pub compress dd));
+    {| HS.verify := fun _ _ => HS.VOk true (recover_addr dd);
+       HS.addr_of_pid := pres_of (ID.node_peer_addr_now kk pub compress decompress ks_priv dd);
        HS.registered := fun _ => false |}.
   Example ex_honest_premises :
     (forall P, length (compress P) = 33%nat) /\ (forall d, decompress (compress (pub d)) = Some (pub d)) /\
     dd < 2 ^ 256 /\
-    HS.addr_of_pid oo = pres_of (ID.addr_of_peerid kk decompress (honest_pid pub compress dd)) /\
-    HS.verify oo [1] (HS.role_string 2 ++ [5]) = HS.VOk true (honest_addr kk pub dd) /\
-    HS.addr_of_pid oo = HS.POk (honest_addr kk pub dd).
+    ks_priv dd = dd /\ ks_addr dd = ID.eth_addr kk (pub dd) /\ recover_addr dd = ID.eth_addr kk (pub dd) /\
+    HS.addr_of_pid oo = pres_of (ID.node_peer_addr_now kk pub compress decompress ks_priv dd) /\
+    HS.verify oo [1] (HS.role_string 2 ++ [5]) = HS.VOk true (recover_addr dd) /\
+    HS.addr_of_pid oo = HS.POk (recover_addr dd).
   Proof.
     split; [intros P; cbn [length compress]; rewrite be_length; reflexivity|].
     split.
     { intros d0. unfold decompress, compress, pub. cbn [tl fst]. rewrite unbe_be_mod.
       replace (256 ^ N.of_nat 32) with (2 ^ 256) by reflexivity.
       rewrite !N.mod_mod by (apply N.pow_nonzero; lia). reflexivity. }
-    split; [reflexivity|]. split; [reflexivity|]. split; [reflexivity|]. vm_compute. reflexivity.
+    split; [reflexivity|]. split; [reflexivity|]. split; [reflexivity|]. split; [reflexivity|].
+    split; [reflexivity|]. split; [reflexivity|]. vm_compute. reflexivity.
   Qed.
 End HonestExample.
 
